@@ -23,10 +23,11 @@ from __future__ import annotations
 
 import ast
 
-from ..astutil import (ancestors, call_name, calls_in, conjuncts, guards_of, kwarg, norm,
-                       single_def_value, stmt_of, stores_to, walk_no_nested)
+from ..astutil import (MUTATING_METHODS, ancestors, call_name, calls_in, conjuncts, guards_of, kwarg, local_defs,
+                       norm, single_def_value, stmt_of, stores_to, tuple_def_component, walk_no_nested)
 from ..cfg import CFG
 from ..loader import dotted_name
+from ..resolve import resolve_call
 
 STORE = 'trajectories/store.py'
 ALLOWED_GUARD_ATOMS = {'self.indexable', 'self.index_stale', 'self._write_enabled'}
@@ -76,6 +77,7 @@ def rule_stale(ctx, m):
                line=n.line, nontrivial=False)
 
     # users
+    copies = set(index_copies(ctx.prog, dict(m.cls('TrajectoryStore').methods)))
     for fname, uses_pred in (('get_flight', 'read'), ('sync', 'sync'), ('close', 'close')):
         fi = m.func(f'TrajectoryStore.{fname}')
         g = CFG(fi.node)
@@ -115,6 +117,9 @@ def rule_stale(ctx, m):
                 for x in walk_no_nested(e):
                     if isinstance(x, ast.Attribute) and x.attr == 'variables' and 'index_group' in norm(x.value):
                         uses.append((n, 'read of the index variables'))
+                    if isinstance(x, ast.Attribute) and isinstance(x.ctx, ast.Load) and x.attr in copies \
+                            and norm(x.value) == 'self':
+                        uses.append((n, f'read of the copy of the index in self.{x.attr}'))
                     if isinstance(x, ast.Call) and isinstance(x.func, ast.Attribute) \
                             and x.func.attr in ('sync', 'close') and fname in ('sync', 'close') \
                             and norm(x.func.value) != 'self':
@@ -152,131 +157,978 @@ def rule_stale(ctx, m):
         ctx.ob('C08-R1', ri, 'flag cleared', False, '_reindex never clears index_stale')
 
 
-def _pair_layout(pairs: ast.expr):
-    """component sources of the iterable of pairs: enumerate(F) / zip(A, B)."""
-    if isinstance(pairs, ast.Call):
-        cn = call_name(pairs)
-        if cn == 'enumerate' and len(pairs.args) == 1:
-            return ['<position>', norm(pairs.args[0])]
-        if cn == 'zip' and len(pairs.args) == 2:
-            return [norm(pairs.args[0]), norm(pairs.args[1])]
+# ---------------------------------------------------------------------------
+# value flow: where does a value come from?
+# ---------------------------------------------------------------------------
+
+# one-argument calls that keep the sequence of values they are given
+_TRANSPARENT = {'list', 'tuple', 'int', 'iter', 'np.asarray', 'np.array', 'np.ascontiguousarray', 'np.int64',
+                'numpy.asarray', 'numpy.array', 'numpy.ascontiguousarray', 'numpy.int64', 'np.ma.getdata',
+                'np.ma.filled'}
+
+
+class Ref:
+    """An expression `e` of function `fi`; `env` binds parameters of `fi` to the
+    argument expressions of the call through which `fi` was entered; `comp` is a
+    pending path of tuple components still to be taken of the value of `e`."""
+    __slots__ = ('e', 'fi', 'env', 'comp')
+
+    def __init__(self, e, fi, env=None, comp=()):
+        self.e, self.fi, self.env, self.comp = e, fi, env or {}, tuple(comp)
+
+    def sub(self, e, comp=()):
+        return Ref(e, self.fi, self.env, comp)
+
+    def text(self):
+        return norm(self.e) + ''.join(f'[{c}]' for c in self.comp)
+
+
+def _mutations(fn: ast.AST, name: str) -> list[ast.Call]:
+    """calls `name.<mutating method>(...)` in fn"""
+    return [c for c in calls_in(fn) if isinstance(c.func, ast.Attribute) and isinstance(c.func.value, ast.Name)
+            and c.func.value.id == name and c.func.attr in MUTATING_METHODS]
+
+
+def _bind_params(callee, c: ast.Call, caller: Ref):
+    """parameter name -> Ref of the argument, or None when the call shape is not plain"""
+    a = callee.node.args
+    if a.vararg or a.kwarg or any(isinstance(x, ast.Starred) for x in c.args) or any(k.arg is None for k in c.keywords):
+        return None
+    names = [x.arg for x in a.posonlyargs + a.args]
+    decos = {norm(d) for d in callee.node.decorator_list}
+    if getattr(callee, 'cls', None) is not None and 'staticmethod' not in decos and names:
+        via_class = isinstance(c.func, ast.Attribute) and dotted_name(c.func.value) == callee.cls.name
+        if 'classmethod' in decos or not via_class:
+            names = names[1:]
+    if len(c.args) > len(names):
+        return None
+    env = {}
+    for n_, x in zip(names, c.args):
+        env[n_] = caller.sub(x)
+    allowed = set(names) | {x.arg for x in a.kwonlyargs}
+    for k in c.keywords:
+        if k.arg not in allowed or k.arg in env:
+            return None
+        env[k.arg] = caller.sub(k.value)
+    return env
+
+
+def resolve_value(prog, r: Ref) -> Ref:
+    """Follow a value back through single-definition locals, tuple unpacking,
+    constant subscripts of tuples, transparent conversions, parameters of an
+    inlined call and calls of resolved repository functions with one `return`.
+    Stops at the first expression that is none of those (an accumulator, a
+    comprehension, a library call, an attribute, ...)."""
+    e, fi, env, comp = r.e, r.fi, r.env, r.comp
+    for _ in range(40):
+        if comp and isinstance(e, (ast.Tuple, ast.List)) and not any(isinstance(x, ast.Starred) for x in e.elts) \
+                and comp[0] < len(e.elts):
+            e, comp = e.elts[comp[0]], comp[1:]
+            continue
+        if isinstance(e, ast.Subscript) and isinstance(e.slice, ast.Constant) and isinstance(e.slice.value, int) \
+                and not isinstance(e.slice.value, bool) and e.slice.value >= 0:
+            base = resolve_value(prog, Ref(e.value, fi, env, (e.slice.value,) + comp))
+            if len(base.comp) < 1 + len(comp) or isinstance(base.e, ast.Call):
+                return base                          # the component was taken of a tuple (or is pending on a call)
+            return Ref(e, fi, env, comp)
+        if isinstance(e, ast.Name):
+            params = set(fi.params) if hasattr(fi, 'params') else set()
+            if e.id in params and e.id in env and not local_defs(fi.node, e.id):
+                b = env[e.id]
+                e, fi, env, comp = b.e, b.fi, b.env, b.comp + comp
+                continue
+            if _mutations(fi.node, e.id):
+                break
+            v = single_def_value(fi.node, e.id)
+            if v is not None:
+                e = v
+                continue
+            t = tuple_def_component(fi.node, e.id)
+            if t is not None:
+                e, comp = t[0], (t[1],) + comp
+                continue
+            break
+        if isinstance(e, ast.Call):
+            cn = call_name(e)
+            if cn in _TRANSPARENT and len(e.args) == 1 and not isinstance(e.args[0], ast.Starred) \
+                    and all(k.arg in ('dtype', 'copy') for k in e.keywords):
+                e = e.args[0]
+                continue
+            callee = resolve_call(prog, fi, e) if prog is not None and hasattr(fi, 'module') else None
+            if callee is not None and callee.node is not fi.node:
+                rets = [x for x in walk_no_nested(callee.node) if isinstance(x, ast.Return)]
+                gen = any(isinstance(x, (ast.Yield, ast.YieldFrom)) for x in walk_no_nested(callee.node))
+                if len(rets) == 1 and rets[0].value is not None and not gen:
+                    new_env = _bind_params(callee, e, Ref(e, fi, env))
+                    if new_env is not None:
+                        e, fi, env = rets[0].value, callee, new_env
+                        continue
+            break
+        break
+    return Ref(e, fi, env, comp)
+
+
+def same_value(a: Ref, b: Ref) -> bool:
+    """Both (resolved) references denote the same evaluation."""
+    if a.comp != b.comp or a.fi.node is not b.fi.node:
+        return False
+    if a.e is not b.e and not (isinstance(a.e, ast.Name) and isinstance(b.e, ast.Name) and a.e.id == b.e.id):
+        return False
+    if a.env.keys() != b.env.keys():
+        return False
+    return all(same_value(a.env[k], b.env[k]) for k in a.env)
+
+
+def _is_index_group(fi, e: ast.expr, depth: int = 0) -> bool:
+    """e denotes a flight-identifier index group (self.index_group, ts.index_group, a group created or opened
+    under the name '_index', or a local bound to one of those)."""
+    if isinstance(e, ast.Attribute):
+        return e.attr == 'index_group'
+    if isinstance(e, ast.Name) and depth < 4:
+        v = single_def_value(fi.node, e.id)
+        if v is not None:
+            return _is_index_group(fi, v, depth + 1)
+        return 'index_group' in e.id
+    if isinstance(e, ast.Call) and isinstance(e.func, ast.Attribute) and e.func.attr in ('createGroup', 'get') and e.args:
+        return isinstance(e.args[0], ast.Constant) and 'index' in str(e.args[0].value)
+    if isinstance(e, ast.Subscript) and isinstance(e.slice, ast.Constant):
+        return 'index' in str(e.slice.value)
+    return False
+
+
+def _variable_object(fi, e: ast.expr, depth: int = 0):
+    """(key, owner expr) when e denotes the netCDF variable `<owner>.variables['key']` (or `<owner>['key']`)."""
+    if isinstance(e, ast.Name) and depth < 4:
+        v = single_def_value(fi.node, e.id)
+        return _variable_object(fi, v, depth + 1) if v is not None else None
+    if isinstance(e, ast.Subscript) and isinstance(e.slice, ast.Constant) and isinstance(e.slice.value, str):
+        o = e.value
+        for _ in range(4):
+            if isinstance(o, ast.Name):
+                v = single_def_value(fi.node, o.id)
+                if v is None:
+                    break
+                o = v
+            else:
+                break
+        if isinstance(o, ast.Attribute) and o.attr == 'variables':
+            return e.slice.value, o.value
+        if _is_index_group(fi, o):
+            return e.slice.value, o
     return None
 
 
-def _comp_of_listcomp(lc: ast.expr, src_name: str):
-    """For `[e for a, b in SRC]` return index of the target component e names."""
-    if isinstance(lc, ast.ListComp) and len(lc.generators) == 1:
-        gen = lc.generators[0]
-        if isinstance(gen.iter, ast.Name) and gen.iter.id == src_name and not gen.ifs \
-                and isinstance(gen.target, ast.Tuple) and isinstance(lc.elt, ast.Name):
-            for i, t in enumerate(gen.target.elts):
-                if isinstance(t, ast.Name) and t.id == lc.elt.id:
-                    return i
+def _index_variable(fi, e: ast.expr):
+    """key when e denotes a variable of a flight-identifier index group, or a slice of one"""
+    for cand in (e, e.value if isinstance(e, ast.Subscript) else None):
+        if cand is None:
+            continue
+        vo = _variable_object(fi, cand)
+        if vo is not None and _is_index_group(fi, vo[1]):
+            return vo[0]
     return None
 
 
-def rule_sorted(ctx, m):
+def variable_reads(r: Ref, seen: set | None = None) -> set[tuple[str, bool]]:
+    """{(key, read from an index group?)} of the netCDF variables the value of r is built from, through the
+    locals it mentions (every binding and every accumulation of each) and the parameters bound in r.env."""
+    seen = set() if seen is None else seen
+    out = set()
+    fi = r.fi
+    for x in ast.walk(r.e):
+        if isinstance(x, ast.Subscript):
+            vo = _variable_object(fi, x)
+            if vo is not None:
+                out.add((vo[0], _is_index_group(fi, vo[1])))
+        if isinstance(x, ast.Name) and isinstance(x.ctx, ast.Load) and (id(fi.node), x.id) not in seen:
+            seen.add((id(fi.node), x.id))
+            if x.id in r.env and not local_defs(fi.node, x.id):
+                out |= variable_reads(r.env[x.id], seen)
+                continue
+            for d in local_defs(fi.node, x.id):
+                src = d.iter if isinstance(d, (ast.For, ast.AsyncFor)) else getattr(d, 'value', None)
+                if src is not None:
+                    out |= variable_reads(r.sub(src), seen)
+            for c in _mutations(fi.node, x.id):
+                for a_ in list(c.args) + [k.value for k in c.keywords]:
+                    out |= variable_reads(r.sub(a_), seen)
+    return out
+
+
+def _component_expr(target: ast.expr, elt: ast.expr):
+    """index k such that `elt` is component k of the pair bound to `target`"""
+    if isinstance(target, (ast.Tuple, ast.List)) and isinstance(elt, ast.Name):
+        hits = [i for i, t in enumerate(target.elts) if isinstance(t, ast.Name) and t.id == elt.id]
+        return hits[0] if len(hits) == 1 else None
+    if isinstance(target, ast.Name) and isinstance(elt, ast.Subscript) and isinstance(elt.value, ast.Name) \
+            and elt.value.id == target.id and isinstance(elt.slice, ast.Constant) and isinstance(elt.slice.value, int):
+        return elt.slice.value
+    return None
+
+
+def _component_fn(fn: ast.expr):
+    """k for a function that maps a pair to its component k (as a sort key: the primary component)"""
+    if fn is None:
+        return 0                                  # tuples compare by their first component first
+    if isinstance(fn, ast.Lambda) and len(fn.args.args) == 1 and not fn.args.vararg and not fn.args.kwarg:
+        body = fn.body
+        if isinstance(body, ast.Tuple) and body.elts:
+            body = body.elts[0]
+        return _component_expr(ast.Name(id=fn.args.args[0].arg, ctx=ast.Load()), body)
+    if isinstance(fn, ast.Call) and call_name(fn) in ('itemgetter', 'operator.itemgetter') and fn.args \
+            and isinstance(fn.args[0], ast.Constant) and isinstance(fn.args[0].value, int):
+        return fn.args[0].value
+    return None
+
+
+def _projection(prog, r: Ref):
+    """r (resolved) is column k of a sequence S of pairs -> (Ref of S, k)"""
+    e = r.e
+    if r.comp:
+        if len(r.comp) == 1 and isinstance(e, ast.Call) and call_name(e) == 'zip' and len(e.args) == 1 \
+                and isinstance(e.args[0], ast.Starred) and not e.keywords:
+            return r.sub(e.args[0].value), r.comp[0]
+        return None
+    if isinstance(e, (ast.ListComp, ast.GeneratorExp)) and len(e.generators) == 1:
+        gen = e.generators[0]
+        if not gen.ifs and not gen.is_async:
+            k = _component_expr(gen.target, e.elt)
+            if k is not None:
+                return r.sub(gen.iter), k
+    if isinstance(e, ast.Call) and call_name(e) == 'map' and len(e.args) == 2 and not e.keywords:
+        k = _component_fn(e.args[0])
+        if k is not None:
+            return r.sub(e.args[1]), k
+    return None
+
+
+def _sort_of(prog, s: Ref):
+    """(Ref of the sorted iterable, key expr, reverse expr, the sorting call) of a resolved sequence reference"""
+    e = s.e
+    if s.comp:
+        return None
+    if isinstance(e, ast.Call) and call_name(e) == 'sorted' and len(e.args) == 1:
+        return s.sub(e.args[0]), kwarg(e, 'key'), kwarg(e, 'reverse'), e
+    if isinstance(e, ast.Name):
+        muts = _mutations(s.fi.node, e.id)
+        v = single_def_value(s.fi.node, e.id)
+        if len(muts) == 1 and muts[0].func.attr == 'sort' and not muts[0].args and v is not None \
+                and isinstance(stmt_of(muts[0]), ast.Expr) and not guards_of(muts[0]) \
+                and not any(isinstance(a, (ast.For, ast.While)) for a in ancestors(muts[0])):
+            return s.sub(v), kwarg(muts[0], 'key'), kwarg(muts[0], 'reverse'), muts[0]
+    return None
+
+
+def _argsort_of(prog, r: Ref):
+    """Ref of the array F when r is `np.argsort(F)` / `F.argsort()` (ascending permutation of F)"""
+    e = r.e
+    if r.comp or not isinstance(e, ast.Call):
+        return None
+    if any(k.arg not in ('kind', 'axis') for k in e.keywords):
+        return None
+    if call_name(e) in ('np.argsort', 'numpy.argsort') and len(e.args) == 1:
+        return r.sub(e.args[0])
+    if isinstance(e.func, ast.Attribute) and e.func.attr == 'argsort' and not e.args:
+        return r.sub(e.func.value)
+    return None
+
+
+def _pair_layout(prog, p: Ref):
+    """Component sources of an iterable of pairs: [c0, c1] with c = ('position', None) | ('value', Ref)
+    | ('shifted position', Ref of the start)."""
+    p = resolve_value(prog, p)
+    e = p.e
+    if p.comp or not isinstance(e, ast.Call):
+        return None
+    cn = call_name(e)
+    if cn == 'enumerate' and 1 <= len(e.args) <= 2 and all(k.arg == 'start' for k in e.keywords):
+        start = e.args[1] if len(e.args) == 2 else kwarg(e, 'start')
+        pos = ('position', None) if start is None or (isinstance(start, ast.Constant) and start.value == 0) \
+            else ('shifted position', p.sub(start))
+        return [pos, ('value', p.sub(e.args[0]))]
+    if cn == 'zip' and len(e.args) == 2 and not any(isinstance(a, ast.Starred) for a in e.args) \
+            and all(k.arg == 'strict' for k in e.keywords):
+        out = []
+        for i, a in enumerate(e.args):
+            other = e.args[1 - i]
+            if isinstance(a, ast.Call) and call_name(a) == 'range' and len(a.args) == 1 and isinstance(a.args[0], ast.Call) \
+                    and call_name(a.args[0]) == 'len' and len(a.args[0].args) == 1 and norm(a.args[0].args[0]) == norm(other):
+                out.append(('position', None))
+            else:
+                out.append(('value', p.sub(a)))
+        return out
+    return None
+
+
+def _describe(c) -> str:
+    return c[0] if c[1] is None else (c[1].text() if c[0] == 'value' else f'{c[0]} from {c[1].text()}')
+
+
+def _index_writers(prog, fi, self_only: bool = False):
+    """{'flight_id': [(stmt, Ref of the stored value)], 'trajectory_index': [...]}: stores into the variables of a
+    flight-identifier index group in fi."""
+    out: dict[str, list] = {}
+    for tt, st, how in stores_to(fi.node):
+        if how != 'assign' or not isinstance(tt, ast.Subscript):
+            continue
+        vo = None
+        for cand in (tt.value, tt):
+            vo = _variable_object(fi, cand)
+            if vo is not None:
+                break
+        if vo is None or not _is_index_group(fi, vo[1]):
+            continue
+        if self_only and not _denotes_self_attr(fi, vo[1], 'index_group'):
+            continue
+        comp = ()
+        tgt = st.targets[0]
+        if isinstance(tgt, (ast.Tuple, ast.List)):
+            pos = [i for i, x in enumerate(tgt.elts) if x is tt]
+            if len(st.targets) != 1 or not pos:
+                continue
+            comp = (pos[0],)
+        out.setdefault(vo[0], []).append((st, Ref(st.value, fi, None, comp)))
+    return out
+
+
+def _denotes_self_attr(fi, e: ast.expr, attr: str) -> bool:
+    for _ in range(4):
+        if isinstance(e, ast.Name):
+            v = single_def_value(fi.node, e.id)
+            if v is None:
+                return False
+            e = v
+        else:
+            break
+    return isinstance(e, ast.Attribute) and e.attr == attr and isinstance(e.value, ast.Name) and e.value.id == 'self'
+
+
+def rule_sorted_writers(ctx, m):
+    """R2, writer side.  What is stored into the two index variables must be the two columns of ONE ascending sort
+    of the (identifier, position) pairs keyed on the identifier — the column the reader bisects on — whether the
+    sort is written inline, through locals, or inside a resolved callee."""
+    prog = ctx.prog
     for qn in ('TrajectoryStore._reindex', 'TrajectoryStore._create_merged_store_index'):
         fi = m.func(qn)
-        sorted_calls = [(t, st) for t, st, how in stores_to(fi.node)
-                        if isinstance(t, ast.Name) and isinstance(getattr(st, 'value', None), ast.Call)
-                        and call_name(st.value) == 'sorted']
-        if len(sorted_calls) > 1:
-            # keep the binding the index-variable writers project from
-            used = {g.iter.id for tt, s2, how in stores_to(fi.node) if isinstance(s2, ast.Assign)
-                    and 'index_group' in norm(tt) and isinstance(s2.value, ast.ListComp)
-                    for g in s2.value.generators if isinstance(g.iter, ast.Name)}
-            sorted_calls = [(t, st) for t, st in sorted_calls if t.id in used]
-        if len(sorted_calls) != 1:
-            ctx.undecided('C08-R2', fi, 'sorted(...)', f'expected one sorted() binding, found {len(sorted_calls)}')
-        t, st = sorted_calls[0]
-        sc = st.value
-        layout = _pair_layout(sc.args[0]) if sc.args else None
-        key = kwarg(sc, 'key')
-        if kwarg(sc, 'reverse') is not None:
-            ctx.ob('C08-R2', fi, 'sorted(..., reverse=...)', False,
-                   'descending table, but the reader uses bisect_left (ascending)', line=sc.lineno)
-        k = None
-        if isinstance(key, ast.Lambda) and isinstance(key.body, ast.Subscript) \
-                and isinstance(key.body.slice, ast.Constant):
-            k = key.body.slice.value
-        if layout is None or k not in (0, 1):
-            ctx.undecided('C08-R2', fi, norm(sc)[:80], 'pair layout or sort key not recognised')
-        writers = {}
-        for tt, s2, how in stores_to(fi.node):
-            txt = norm(tt)
-            for var in ('flight_id', 'trajectory_index'):
-                if f".variables['{var}'][:]" in txt and 'index_group' in txt:
-                    writers[var] = (s2, _comp_of_listcomp(s2.value, t.id))
-        if set(writers) != {'flight_id', 'trajectory_index'}:
-            ctx.undecided('C08-R2', fi, 'index variable stores', f'found writers for {sorted(writers)}')
-        s_id, c_id = writers['flight_id']
-        s_ix, c_ix = writers['trajectory_index']
-        if c_id is None or c_ix is None:
-            ctx.undecided('C08-R2', fi, 'index variable stores', 'store is not a projection of the sorted pairs')
-        ok = c_id == k
-        ctx.ob('C08-R2', fi, f'flight_id table = component {c_id} of pairs sorted by component {k}', ok,
-               'the searched variable is the sort key, hence ascending' if ok else
-               'the variable the reader bisects on is not the one the pairs were sorted by',
+        W = _index_writers(prog, fi)
+        if set(W) != {'flight_id', 'trajectory_index'} or any(len(v) != 1 for v in W.values()):
+            ctx.undecided('C08-R2', fi, 'index variable stores',
+                          'expected one store into each of flight_id / trajectory_index, found '
+                          + str({k: len(v) for k, v in sorted(W.items())}))
+        (s_id, v_id), (s_ix, v_ix) = W['flight_id'][0], W['trajectory_index'][0]
+        r_id, r_ix = resolve_value(prog, v_id), resolve_value(prog, v_ix)
+        p_id, p_ix = _projection(prog, r_id), _projection(prog, r_ix)
+        if p_id is not None and p_ix is not None:
+            S_id, S_ix = resolve_value(prog, p_id[0]), resolve_value(prog, p_ix[0])
+            one = same_value(S_id, S_ix) or (S_id.fi.node is S_ix.fi.node and norm(S_id.e) == norm(S_ix.e)
+                                             and all(same_value(S_id.env[k], S_ix.env[k]) for k in S_id.env)
+                                             and S_id.env.keys() == S_ix.env.keys())
+            ctx.ob('C08-R2', fi, 'both index variables are columns of one sequence of sorted pairs', one,
+                   f'both project {S_id.text()[:70]}' if one else
+                   (f'flight_id is a column of {S_id.text()[:60]} but trajectory_index is a column of {S_ix.text()[:60]}: '
+                    'slot i of one table no longer describes slot i of the other'), line=s_ix.lineno)
+            so = _sort_of(prog, S_id)
+            if so is None:
+                ctx.undecided('C08-R2', fi, S_id.text()[:80], 'the sequence the index columns are taken from is not a '
+                              'recognised sort (sorted(...) or one in-place .sort())')
+            P, key, rev, scall = so
+            if rev is not None and not (isinstance(rev, ast.Constant) and not rev.value):
+                ctx.ob('C08-R2', fi, f'{norm(scall)[:60]} reverse={norm(rev)}', False,
+                       'descending table, but the reader does a left bisection of an ascending array', line=scall.lineno)
+            k = _component_fn(key)
+            layout = _pair_layout(prog, P)
+            if layout is None or k not in (0, 1):
+                ctx.undecided('C08-R2', fi, norm(scall)[:80], 'pair layout or sort key not recognised')
+            c_id, c_ix = p_id[1], p_ix[1]
+            ok = c_id == k
+            ctx.ob('C08-R2', fi, f'flight_id table = component {c_id} of pairs sorted by component {k}', ok,
+                   'the searched variable is the sort key, hence ascending' if ok else
+                   'the variable the reader bisects on is not the one the pairs were sorted by', line=s_id.lineno)
+            id_col, pos_col, what_pos = layout[k], (layout[1 - k] if c_ix == 1 - k else None), f'component {c_ix}'
+        else:
+            # permutation form: ids[order], order  /  ids[order], positions[order]   with order = argsort(ids)
+            def permuted(r):
+                if r.comp or not isinstance(r.e, ast.Subscript):
+                    return None
+                o = resolve_value(prog, r.sub(r.e.slice))
+                f = _argsort_of(prog, o)
+                return (resolve_value(prog, r.sub(r.e.value)), o, resolve_value(prog, f)) if f is not None else None
+            pm = permuted(r_id)
+            if pm is None:
+                ctx.undecided('C08-R2', fi, 'index variable stores', 'store is not a projection of the sorted pairs')
+            arr, order, sorted_arr = pm
+            ok = same_value(arr, sorted_arr)
+            if not ok:
+                ctx.undecided('C08-R2', fi, r_id.text()[:80], 'the permutation is not the argsort of the permuted array itself')
+            ctx.ob('C08-R2', fi, f'flight_id table = {arr.text()[:40]} in its own argsort order', True,
+                   'the searched variable is ascending', line=s_id.lineno)
+            id_col = ('value', arr)
+            if _argsort_of(prog, r_ix) is not None and same_value(r_ix, order):
+                pos_col = ('position', None)
+            else:
+                pm2 = permuted(r_ix)
+                pos_col = ('value', pm2[0]) if pm2 is not None and same_value(pm2[1], order) else None
+            what_pos = r_ix.text()[:50]
+        keys = {k_ for k_, _ in variable_reads(id_col[1])} if id_col[0] == 'value' else set()
+        ok = id_col[0] == 'value' and keys == {'flight_id'}
+        ctx.ob('C08-R2', fi, f'sort key = {_describe(id_col)[:60]}', ok,
+               'the sort key is the flight identifier' if ok else
+               f'pairs are sorted by something that is not the identifier (built from {sorted(keys) or id_col[0]})',
                line=s_id.lineno)
-        ok = 'flight_id' in layout[k]
-        ctx.ob('C08-R2', fi, f'sort component {k} = {layout[k]}', ok,
-               'the sort key is the flight identifier' if ok else 'pairs are sorted by something that is not the identifier',
-               line=sc.lineno)
-        ok = c_ix == 1 - k and ('position' in layout[1 - k] or 'index' in layout[1 - k])
-        ctx.ob('C08-R2', fi, f'trajectory_index table = component {c_ix} = {layout[1 - k] if c_ix == 1 - k else "?"}', ok,
+        if pos_col is None:
+            ok = False
+        elif pos_col[0] == 'position':
+            ok = True
+        elif pos_col[0] == 'value':
+            ok = {k_ for k_, _ in variable_reads(pos_col[1])} == {'trajectory_index'}
+        else:
+            ok = False
+        ctx.ob('C08-R2', fi, f'trajectory_index table = {what_pos} = {_describe(pos_col) if pos_col else "?"}'[:110], ok,
                'the parallel variable carries the store position of the same pair' if ok else
                'trajectory_index is not the position component of the same sorted pairs', line=s_ix.lineno)
 
+
+# ---------------------------------------------------------------------------
+# reader
+# ---------------------------------------------------------------------------
+
+def _search_call(c: ast.Call):
+    """(array expr, searched value expr, 'left'|'right') for a binary search call, else None;
+    'other' as side when the call has options that are not modelled."""
+    cn = call_name(c)
+    extra = [k.arg for k in c.keywords if k.arg != 'side']
+    if cn in ('bisect.bisect_left', 'bisect_left', 'bisect.bisect_right', 'bisect_right', 'bisect.bisect', 'bisect') \
+            and len(c.args) >= 2:
+        side = 'left' if cn.endswith('_left') else 'right'
+        return c.args[0], c.args[1], (side if len(c.args) == 2 and not c.keywords else 'other')
+    if cn in ('np.searchsorted', 'numpy.searchsorted') and len(c.args) >= 2:
+        arr, val, rest = c.args[0], c.args[1], c.args[2:]
+    elif isinstance(c.func, ast.Attribute) and c.func.attr == 'searchsorted' and len(c.args) >= 1:
+        arr, val, rest = c.func.value, c.args[0], c.args[1:]
+    else:
+        return None
+    side = rest[0] if rest else kwarg(c, 'side')
+    if extra or len(rest) > 1 or (side is not None and not isinstance(side, ast.Constant)):
+        return arr, val, 'other'
+    return arr, val, ('left' if side is None else str(side.value))
+
+
+def _self_attr_fills(cls, attr: str):
+    """[(value expr, FunctionInfo, stmt)] for every `self.<attr> = value` in the class whose value is not None"""
+    out = []
+    for fi in cls.methods.values():
+        for t, st, how in stores_to(fi.node):
+            if isinstance(t, ast.Attribute) and t.attr == attr and isinstance(t.value, ast.Name) and t.value.id == 'self' \
+                    and how in ('assign', 'ann') and getattr(st, 'value', None) is not None \
+                    and not (isinstance(st.value, ast.Constant) and st.value.value is None):
+                tgt = st.targets[0] if isinstance(st, ast.Assign) else st.target
+                if tgt is t:
+                    out.append((st.value, fi, st))
+    return out
+
+
+def index_source(prog, cls, r: Ref, depth: int = 0):
+    """(key, via) when the value of r is the content of index variable `key` of the store's own index group, read
+    directly (via None) or through the attribute `via` of self that holds a copy of it; else None."""
+    r = resolve_value(prog, r)
+    e = r.e
+    if isinstance(e, ast.Attribute) and isinstance(e.value, ast.Name) and e.value.id == 'self' and depth < 3:
+        found = set()
+        for val, fi, _ in _self_attr_fills(cls, e.attr):
+            s = index_source(prog, cls, Ref(val, fi, None, r.comp), depth + 1)
+            found.add(s[0] if s is not None else None)
+        if len(found) == 1 and None not in found:
+            return found.pop(), e.attr
+        return None
+    if r.comp:
+        return None
+    key = _index_variable(r.fi, e)
+    if key is not None:
+        return key, None
+    for var, lst in _index_writers(prog, r.fi).items():
+        for st, v in lst:
+            if same_value(resolve_value(prog, v), r):
+                return var, None
+    return None
+
+
+IN_MEMORY_FACTS = {('self.nc_linked', False), ('len(self._nc_files) != 0', False), ('len(self._nc_files) > 0', False),
+                   ('len(self._nc_files) == 0', True), ('self._nc_files', False), ('len(self._nc_files)', False)}
+
+
+def path_facts(fn: ast.AST):
+    """Forward dataflow of branch conditions: for each CFG node the set of (expr text, truth value) facts that hold
+    on every normal path reaching it (`if`/`while` outcomes and `assert`s; a fact dies when a name or self attribute
+    it mentions is stored to).  Returns (cfg, {node id: facts}, {text: expr})."""
+    g = CFG(fn)
+    exprs: dict[str, ast.expr] = {}
+
+    def facts_of(test, pol):
+        out = set()
+        for e, p in conjuncts(test, pol):
+            if isinstance(e, ast.Name):
+                v = single_def_value(fn, e.id)
+                if v is not None and not calls_in(v):
+                    e = v
+            t = norm(e)
+            exprs[t] = e
+            out.add((t, p))
+        return out
+
+    def transfer(node, st):
+        s_ = node.stmt
+        if node.kind != 'stmt' or s_ is None:
+            return st
+        killed = set()
+        for t, _, _ in stores_to(s_) if isinstance(s_, (ast.Assign, ast.AugAssign, ast.AnnAssign, ast.Delete)) else []:
+            killed.add(norm(t.value) if isinstance(t, ast.Subscript) else norm(t))
+        if killed:
+            import re
+            st = frozenset(f for f in st if not any(re.search(r'(?<![\w.])' + re.escape(k) + r'(?![\w])', f[0]) for k in killed))
+        if isinstance(s_, ast.Assert):
+            st = st | frozenset(facts_of(s_.test, True))
+        return st
+
+    def branch(node, lab, st):
+        s_ = node.stmt
+        if node.kind == 'test' and isinstance(s_, (ast.If, ast.While)):
+            return st | frozenset(facts_of(s_.test, lab == 't'))
+        return st
+
+    ins, _ = g.forward(frozenset(), transfer, lambda a, b: a & b, edge_ok=_normal, branch_transfer=branch)
+    return g, ins, exprs
+
+
+def _alternatives(e: ast.expr | None):
+    """leaf values of a returned expression (conditional expressions split)"""
+    if isinstance(e, ast.IfExp):
+        return _alternatives(e.body) + _alternatives(e.orelse)
+    return [e]
+
+
+def _cache_search(prog, gf, ret: ast.Return, v: ast.expr, facts):
+    """Recognise `v` as "the element of an iterable whose attribute equals the key".
+    -> dict(elt, target, iter, conds, missing) or None.  `missing` says what happens when nothing matches:
+    'none' | 'falls through' | 'raises'."""
+    r0 = Ref(v, gf)
+    # (a) loop with early return of the loop variable
+    if isinstance(v, ast.Name):
+        lp = next((a for a in ancestors(ret) if isinstance(a, (ast.For, ast.AsyncFor))
+                   and v.id in {x.id for x in ast.walk(a.target) if isinstance(x, ast.Name)}), None)
+        if lp is not None:
+            conds = [(e, p) for t, pol, _ in guards_of(ret, stop=lp) for e, p in conjuncts(t, pol)]
+            return dict(elt=v, target=lp.target, iter=lp.iter, conds=conds, missing='falls through')
+    r = resolve_value(prog, r0)
+    e = r.e
+    if r.comp:
+        return None
+
+    def from_comp(c, missing):
+        if isinstance(c, (ast.ListComp, ast.GeneratorExp)) and len(c.generators) == 1 and not c.generators[0].is_async:
+            gen = c.generators[0]
+            return dict(elt=c.elt, target=gen.target, iter=gen.iter,
+                        conds=[(x, p) for i in gen.ifs for x, p in conjuncts(i, True)], missing=missing)
+        return None
+    # (b) next(generator[, None])
+    if isinstance(e, ast.Call) and call_name(e) == 'next' and 1 <= len(e.args) <= 2 and not e.keywords:
+        src = resolve_value(prog, r.sub(e.args[0]))
+        missing = 'raises' if len(e.args) == 1 else \
+            ('none' if isinstance(e.args[1], ast.Constant) and e.args[1].value is None else 'other')
+        s = src.e
+        if isinstance(s, ast.Call) and call_name(s) == 'filter' and len(s.args) == 2 and isinstance(s.args[0], ast.Lambda) \
+                and len(s.args[0].args.args) == 1:
+            a = s.args[0].args.args[0].arg
+            nm = ast.Name(id=a, ctx=ast.Load())
+            return dict(elt=nm, target=nm, iter=s.args[1], conds=[(s.args[0].body, True)], missing=missing)
+        return from_comp(s, missing)
+    # (c) matches[0] guarded by the list being non-empty
+    if isinstance(e, ast.Subscript) and isinstance(e.slice, ast.Constant) and e.slice.value == 0:
+        lst = resolve_value(prog, r.sub(e.value))
+        d = from_comp(lst.e, 'none') if isinstance(lst.e, ast.ListComp) else None
+        if d is not None:
+            texts = {norm(e.value)}
+            nonempty = any((t in texts and p) or (t in {f'len({x})' for x in texts} and p)
+                           or (t in {f'len({x}) {op}' for x in texts for op in ('> 0', '!= 0', '>= 1')} and p)
+                           or (t in {f'len({x}) == 0' for x in texts} and not p) for t, p in facts)
+            d['missing'] = 'none' if nonempty else 'raises'
+            return d
+    # (d) {t.key: t for t in ...}.get(x)
+    if isinstance(e, ast.Call) and isinstance(e.func, ast.Attribute) and e.func.attr == 'get' and 1 <= len(e.args) <= 2 \
+            and not e.keywords:
+        dc = resolve_value(prog, r.sub(e.func.value)).e
+        if isinstance(dc, ast.DictComp) and len(dc.generators) == 1 and not dc.generators[0].ifs:
+            gen = dc.generators[0]
+            missing = 'none' if len(e.args) == 1 or (isinstance(e.args[1], ast.Constant) and e.args[1].value is None) else 'other'
+            eq = ast.Compare(left=dc.key, ops=[ast.Eq()], comparators=[e.args[0]])
+            return dict(elt=dc.value, target=gen.target, iter=gen.iter, conds=[(eq, True)], missing=missing)
+    return None
+
+
+def rule_reader(ctx, m):
+    """R2, reader side (get_flight)."""
+    prog = ctx.prog
+    cls = m.cls('TrajectoryStore')
     gf = m.func('TrajectoryStore.get_flight')
-    bis = [c for c in calls_in(gf.node) if call_name(c) in ('bisect.bisect_left', 'bisect_left')]
-    if len(bis) != 1:
-        ctx.undecided('C08-R2', gf, 'bisect', f'expected one bisect_left call, found {len(bis)}')
-    b = bis[0]
-    arr = b.args[0]
-    d = single_def_value(gf.node, arr.id) if isinstance(arr, ast.Name) else None
-    ok = d is not None and "variables['flight_id']" in norm(d) and norm(b.args[1]) == gf.params[1]
-    ctx.ob('C08-R2', gf, f'bisect_left({norm(arr)}, {norm(b.args[1])})', ok,
-           'searches the flight_id variable for the requested identifier' if ok else
-           'the binary search does not run over the flight_id variable with the requested identifier',
-           line=b.lineno)
-    pos = stmt_of(b).targets[0].id if isinstance(stmt_of(b), ast.Assign) else None
-    rets = [n for n in walk_no_nested(gf.node) if isinstance(n, ast.Return)]
-    none_rets = [r for r in rets if r.value is None or (isinstance(r.value, ast.Constant) and r.value.value is None)]
-    confirmed = False
-    for r in none_rets:
-        for t, pol, _ in guards_of(r):
-            txt = norm(t)
-            if pos and f'{pos} >= len({norm(arr)})' in txt and f'{norm(arr)}[{pos}] != {gf.params[1]}' in txt:
-                confirmed = True
-    ctx.ob('C08-R2', gf, 'hit confirmed (bounds and equality) else None', confirmed,
-           'returns None unless the found slot holds exactly the requested identifier' if confirmed else
-           'a missing identifier can return a neighbouring trajectory or index past the end')
-    val_rets = [r for r in rets if r not in none_rets]
-    for r in val_rets:
-        txt = norm(r.value)
-        okr = False
-        if isinstance(r.value, ast.Subscript) and norm(r.value.value) == 'self' \
-                and isinstance(r.value.slice, ast.Subscript) and norm(r.value.slice.slice) == pos:
-            src = r.value.slice.value
-            dd = single_def_value(gf.node, src.id) if isinstance(src, ast.Name) else None
-            okr = dd is not None and "variables['trajectory_index']" in norm(dd)
-        why_ok = 'returns the trajectory at the parallel trajectory_index slot'
-        if not okr and isinstance(r.value, ast.Name):
-            # in-memory branch: exact match over the cached trajectories
-            lp = next((a for a in ancestors(r) if isinstance(a, ast.For)), None)
-            gs = [(norm(t), pol) for t, pol, _ in guards_of(r)]
-            fid = gf.params[1]
-            if lp is not None and isinstance(lp.target, ast.Name) and lp.target.id == r.value.id \
-                    and norm(lp.iter) == 'self._trajectories.values()' \
-                    and any(tx in (f'{r.value.id}.flight_id == {fid}', f'{fid} == {r.value.id}.flight_id') and pol for tx, pol in gs) \
-                    and any(tx == 'not self.nc_linked' and pol or tx == 'self.nc_linked' and not pol for tx, pol in gs):
-                okr = True
-                why_ok = 'in-memory store: the cached trajectory whose identifier equals the requested one'
-        ctx.ob('C08-R2', gf, f'return {txt}', okr,
-               why_ok if okr else
-               'the returned trajectory is not looked up through the parallel trajectory_index slot',
-               line=r.lineno)
+    fid = gf.params[1]
+    g, ins, fexprs = path_facts(gf.node)
+
+    def is_fid(e):
+        x = resolve_value(prog, Ref(e, gf))
+        return isinstance(x.e, ast.Name) and x.e.id == fid and not x.comp
+
+    searches = [(c, _search_call(c)) for c in calls_in(gf.node)]
+    searches = [(c, s) for c, s in searches if s is not None]
+    if len(searches) != 1:
+        ctx.undecided('C08-R2', gf, 'bisect', f'expected one binary search call (bisect_left / searchsorted), found {len(searches)}')
+    b, (arr, val, side) = searches[0]
+    if side not in ('left', 'right'):
+        ctx.undecided('C08-R2', gf, norm(b)[:80], 'binary search with options that are not modelled')
+    a_src = index_source(prog, cls, Ref(arr, gf))
+    ok = a_src is not None and a_src[0] == 'flight_id' and is_fid(val)
+    ctx.ob('C08-R2', gf, f'{call_name(b).split(".")[-1]}({norm(arr)}, {norm(val)})', ok,
+           'searches the flight_id variable for the requested identifier'
+           + (f' (through the copy kept in self.{a_src[1]})' if ok and a_src[1] else '') if ok else
+           'the binary search does not run over the flight_id variable with the requested identifier', line=b.lineno)
+
+    def is_pos(e):
+        x = resolve_value(prog, Ref(e, gf))
+        return x.e is b and not x.comp
+
+    def src_of(e):
+        return index_source(prog, cls, Ref(e, gf))
+
+    def length_of(e):
+        """array expr A when e is len(A) / A.size / A.shape[0]"""
+        if isinstance(e, ast.Call) and call_name(e) == 'len' and len(e.args) == 1:
+            return e.args[0]
+        if isinstance(e, ast.Attribute) and e.attr == 'size':
+            return e.value
+        if isinstance(e, ast.Subscript) and isinstance(e.value, ast.Attribute) and e.value.attr == 'shape' \
+                and isinstance(e.slice, ast.Constant) and e.slice.value == 0:
+            return e.value.value
+        return None
+
+    IN_RANGE = {('Lt', True, True), ('GtE', True, False), ('Gt', False, True), ('LtE', False, False),
+                ('Eq', True, False), ('Eq', False, False), ('NotEq', True, True), ('NotEq', False, True)}
+
+    def confirmed(facts, slot_ok=is_pos):
+        """(identifier equality established, bounds established) at a point where `facts` hold"""
+        eq = bounds = False
+        for t, p in facts:
+            e = fexprs.get(t)
+            if not isinstance(e, ast.Compare) or len(e.ops) != 1:
+                continue
+            l, r_, op = e.left, e.comparators[0], type(e.ops[0]).__name__
+            for x, y, pos_left in ((l, r_, True), (r_, l, False)):
+                if op in ('Eq', 'NotEq') and (op == 'Eq') == p and is_fid(y) and isinstance(x, ast.Subscript) \
+                        and slot_ok(x.slice) and src_of(x.value) == a_src and a_src is not None:
+                    eq = True
+                la = length_of(y)
+                if la is not None and is_pos(x) and (op, pos_left, p) in IN_RANGE:
+                    s = src_of(la)
+                    if s is not None and a_src is not None and s[1] == a_src[1]:
+                        bounds = True
+        return eq, bounds
+
+    n_val = n_none = 0
+    for rnode in [n for n in g.nodes if n.kind == 'stmt' and isinstance(n.stmt, ast.Return) and n.id in ins]:
+        ret = rnode.stmt
+        for v in _alternatives(ret.value):
+            local = {(norm(e), p): e for t, pol, _ in (guards_of(v, stop=ret) if v is not None else [])
+                     for e, p in conjuncts(t, pol)}
+            for (t, p), e in local.items():
+                fexprs.setdefault(t, e)
+            facts = set(ins[rnode.id]) | set(local)
+            in_memory = bool(facts & IN_MEMORY_FACTS)
+            txt = f'return {norm(v) if v is not None else "None"}'
+            if v is None or (isinstance(v, ast.Constant) and v.value is None):
+                n_none += 1
+                continue
+            n_val += 1
+            # ---- answer from the cache of an in-memory store --------------------------------------
+            cs = _cache_search(prog, gf, ret, v, facts)
+            if cs is not None:
+                it = resolve_value(prog, Ref(cs['iter'], gf)).e
+                how = norm(it)
+                elt_ok = False
+                if how == 'self._trajectories.values()' or how == 'list(self._trajectories.values())':
+                    elt_ok = isinstance(cs['target'], ast.Name) and isinstance(cs['elt'], ast.Name) \
+                        and cs['elt'].id == cs['target'].id
+                elif how == 'self._trajectories.items()':
+                    elt_ok = _component_expr(cs['target'], cs['elt']) == 1
+                match = [c for c in cs['conds'] if isinstance(c[0], ast.Compare) and len(c[0].ops) == 1
+                         and ((isinstance(c[0].ops[0], ast.Eq) and c[1]) or (isinstance(c[0].ops[0], ast.NotEq) and not c[1]))
+                         and any(is_fid(y) and isinstance(x, ast.Attribute) and x.attr == 'flight_id'
+                                 and norm(x.value) == norm(cs['elt'])
+                                 for x, y in ((c[0].left, c[0].comparators[0]), (c[0].comparators[0], c[0].left)))]
+                if not in_memory:
+                    ctx.ob('C08-R2', gf, txt, False,
+                           'a store with files attached is answered by scanning the trajectory cache, which holds only the '
+                           'trajectories loaded so far: an identifier that is in the file but not in the cache returns None',
+                           line=ret.lineno)
+                    continue
+                if not elt_ok or len(match) != 1 or len(cs['conds']) != 1 or cs['missing'] == 'other':
+                    if elt_ok and not match and len(cs['conds']) <= 1:
+                        ctx.ob('C08-R2', gf, txt, False,
+                               'the cached trajectory returned is not selected by equality of its flight_id with the '
+                               'requested identifier', line=ret.lineno)
+                        continue
+                    ctx.undecided('C08-R2', gf, txt[:100], 'in-memory look-up: search form not recognised '
+                                  f'(iterates {how[:40]}, {len(cs["conds"])} condition(s))')
+                if cs['missing'] == 'raises':
+                    ctx.ob('C08-R2', gf, txt, False,
+                           'an identifier that was never added raises (StopIteration / IndexError) instead of returning None',
+                           line=ret.lineno)
+                    continue
+                ctx.ob('C08-R2', gf, txt, True,
+                       'in-memory store: the cached trajectory whose identifier equals the requested one, None when there is none',
+                       line=ret.lineno)
+                continue
+            # ---- answer through the index ---------------------------------------------------------
+            rv = resolve_value(prog, Ref(v, gf))
+            e = rv.e
+            item = None
+            if not rv.comp and isinstance(e, ast.Subscript) and norm(e.value) == 'self':
+                item = e.slice
+            elif not rv.comp and isinstance(e, ast.Call) and call_name(e) == 'self.__getitem__' and len(e.args) == 1:
+                item = e.args[0]
+            if item is None:
+                ctx.undecided('C08-R2', gf, txt[:100], 'returned value is neither a look-up through the index nor a '
+                              'recognised search of the cache')
+            ri = resolve_value(prog, Ref(item, gf))
+            slot = ri.e.slice if isinstance(ri.e, ast.Subscript) and not ri.comp else None
+            t_src = src_of(ri.e.value) if slot is not None else None
+            okr = slot is not None and is_pos(slot) and t_src is not None and t_src[0] == 'trajectory_index' \
+                and a_src is not None and t_src[1] == a_src[1]
+            why_bad = 'the returned trajectory is not looked up through the parallel trajectory_index slot'
+            if okr and side == 'right':
+                okr = False
+                why_bad = ('a right bisection returns the slot after the last equal key, so slot `pos` never holds the '
+                           'requested identifier')
+            ctx.ob('C08-R2', gf, txt, okr,
+                   'returns the trajectory at the parallel trajectory_index slot' if okr else why_bad, line=ret.lineno)
+            eq, bounds = confirmed(facts)
+            if eq and not bounds:
+                # an out-of-range slot answered by catching IndexError around the comparison
+                for t, p in facts:
+                    e2 = fexprs.get(t)
+                    tr = next((a for a in ancestors(e2) if isinstance(a, ast.Try)), None) if e2 is not None else None
+                    if tr is not None and any(h.type is None or norm(h.type) in ('IndexError', 'Exception', 'LookupError')
+                                              or 'IndexError' in norm(h.type) for h in tr.handlers):
+                        bounds = True
+            okc = eq and bounds
+            ctx.ob('C08-R2', gf, 'hit confirmed (bounds and equality) else None', okc,
+                   'returns None unless the found slot holds exactly the requested identifier' if okc else
+                   'a missing identifier can return a neighbouring trajectory or index past the end'
+                   + ('' if eq else ' (no equality test of the found slot against the requested identifier)')
+                   + ('' if bounds else ' (no bounds test of the found slot)'), line=ret.lineno)
+            if in_memory:
+                ctx.ob('C08-R2', gf, txt + ' on an in-memory store', False,
+                       'an in-memory store has no index group: it must answer from its cache', line=ret.lineno)
+    ctx.floor('C08-R2/get_flight', n_val, 2, 'value-returning answers of get_flight (index look-up and in-memory search)')
+    ctx.ob('C08-R2', gf, 'not-found answers', n_none >= 1 or n_val >= 2, f'{n_none} `return None` path(s)', nontrivial=False)
+
+
+def rule_sorted(ctx, m):
+    rule_sorted_writers(ctx, m)
+    rule_reader(ctx, m)
+
+
+# ---------------------------------------------------------------------------
+# R6 freshness of copies of the index
+# ---------------------------------------------------------------------------
+
+_NOT_A_COPY = {'index_group', 'index_dataset', 'index_stale'}
+
+
+def _self_attr_of_target(t: ast.expr):
+    """attribute name X when the store target is self.X, self.X[...] (any depth)"""
+    while isinstance(t, ast.Subscript):
+        t = t.value
+    if isinstance(t, ast.Attribute) and isinstance(t.value, ast.Name) and t.value.id == 'self':
+        return t.attr
+    return None
+
+
+def _attr_writes(fi, attr: str):
+    """statements of fi that rebind, delete, store into or mutate self.<attr>"""
+    out = []
+    for t, st, how in stores_to(fi.node):
+        if _self_attr_of_target(t) == attr:
+            out.append(st)
+    for c in calls_in(fi.node):
+        if isinstance(c.func, ast.Attribute) and c.func.attr in MUTATING_METHODS \
+                and _self_attr_of_target(c.func.value) == attr:
+            out.append(stmt_of(c))
+    return out
+
+
+def index_copies(prog, methods: dict):
+    """{attr: [(FunctionInfo, stmt)]}: attributes of self that are given a value built from the variables of the
+    store's index group (read from them, or the very columns that are being written into them)."""
+    out: dict[str, list] = {}
+    for fi in methods.values():
+        written = set()
+        for lst in _index_writers(prog, fi).values():
+            for st, v in lst:
+                written |= {x.id for x in ast.walk(v.e) if isinstance(x, ast.Name) and isinstance(x.ctx, ast.Load)}
+        cands = []
+        for t, st, how in stores_to(fi.node):
+            a = _self_attr_of_target(t)
+            if a is not None and a not in _NOT_A_COPY and getattr(st, 'value', None) is not None and how != 'del':
+                cands.append((a, st, st.value))
+        for c in calls_in(fi.node):
+            if isinstance(c.func, ast.Attribute) and c.func.attr in MUTATING_METHODS:
+                a = _self_attr_of_target(c.func.value)
+                if a is not None and a not in _NOT_A_COPY:
+                    for x in list(c.args) + [k.value for k in c.keywords]:
+                        cands.append((a, stmt_of(c), x))
+        for a, st, v in cands:
+            if isinstance(v, ast.Constant):
+                continue
+            reads = variable_reads(Ref(v, fi))
+            names = {x.id for x in ast.walk(v) if isinstance(x, ast.Name) and isinstance(x.ctx, ast.Load)}
+            if any(is_idx for _, is_idx in reads) or (names & written):
+                out.setdefault(a, []).append((fi, st))
+    return out
+
+
+def freshness(prog, methods: dict):
+    """For every copy of the index kept in an attribute: is it dropped or renewed wherever the index goes stale
+    (`self.index_stale = True`) or wherever the index variables are rewritten?  One of the two is necessary: a
+    look-up reads the copy, and nothing else tells the copy that trajectories were added since it was made.
+    -> [(attr, ok, covered group, fills, uncovered sites [(fi, stmt)], detail)]"""
+    copies = index_copies(prog, methods)
+    stale_sites, rewrite_sites = [], []
+    for fi in methods.values():
+        if fi.node.name == '__init__':
+            continue
+        for t, st, how in stores_to(fi.node):
+            if _self_attr_of_target(t) == 'index_stale' and isinstance(t, ast.Attribute) and how == 'assign' \
+                    and isinstance(st.value, ast.Constant) and st.value.value is True:
+                stale_sites.append((fi, st))
+        for lst in _index_writers(prog, fi, self_only=True).values():
+            rewrite_sites += [(fi, st) for st, _ in lst]
+
+    def writes_attr(fi, attr, depth=0):
+        if _attr_writes(fi, attr):
+            return True
+        if depth < 3:
+            for c in calls_in(fi.node):
+                cn = call_name(c)
+                if cn.startswith('self.') and cn.count('.') == 1 and cn[5:] in methods and methods[cn[5:]] is not fi \
+                        and writes_attr(methods[cn[5:]], attr, depth + 1):
+                    return True
+        return False
+
+    def covered(fi, site, attr):
+        g = CFG(fi.node)
+        dom = g.dominators(edge_ok=_normal)
+        pdom = g.postdominators([g.exit], edge_ok=_normal)
+        s_nodes = g.nodes_of(site)
+        w_nodes = set()
+        for st in _attr_writes(fi, attr):
+            w_nodes |= set(g.nodes_of(st))
+        for n in g.nodes:
+            if n.kind == 'stmt' and n.stmt is not None:
+                for c in calls_in(n.stmt):
+                    cn = call_name(c)
+                    if cn.startswith('self.') and cn.count('.') == 1 and cn[5:] in methods and methods[cn[5:]] is not fi \
+                            and writes_attr(methods[cn[5:]], attr, 1):
+                        w_nodes.add(n.id)
+        return bool(s_nodes) and all(any(w in dom.get(s, ()) or w in pdom.get(s, ()) for w in w_nodes) for s in s_nodes)
+
+    out = []
+    for attr, fills in sorted(copies.items()):
+        unc_w = [(fi, st) for fi, st in rewrite_sites if not covered(fi, st, attr)]
+        unc_e = [(fi, st) for fi, st in stale_sites if not covered(fi, st, attr)]
+        if rewrite_sites and not unc_w:
+            out.append((attr, True, 'rewritten', fills, [], ''))
+            continue
+        if stale_sites and not unc_e:
+            out.append((attr, True, 'marked stale', fills, [], ''))
+            continue
+        # say what the code tries instead, if it tests the flag where it can no longer be set
+        detail = ''
+        for fi, st in fills:
+            if any('self.index_stale' in norm(t) for t, pol, _ in guards_of(st)):
+                if any(call_name(c) == 'self._reindex' for c in calls_in(fi.node)):
+                    detail = (f'; the refill in {fi.node.name} is tested on `self.index_stale`, but by then the lazy `_reindex()` '
+                              '(or an earlier sync()) has already cleared the flag, so the test is never true')
+        out.append((attr, False, '', fills, unc_e or unc_w, detail))
+    return out, len(stale_sites), len(rewrite_sites)
+
+
+_FRESH_CONTROL = '''
+class S:
+    def add(self, t):
+        self._write(t)
+        if self.indexable:
+            self.index_stale = True
+    def _reindex(self):
+        p = sorted(enumerate(self._ids()), key=lambda x: x[1])
+        self.index_group.variables['flight_id'][:] = [i for _, i in p]
+        self.index_group.variables['trajectory_index'][:] = [j for j, _ in p]
+        self.index_stale = False
+    def get(self, x):
+        if self.index_stale:
+            self._reindex()
+        if self._tab is None or self.index_stale:
+            self._tab = (self.index_group.variables['flight_id'][:], self.index_group.variables['trajectory_index'][:])
+        return self._tab
+    def _reindex_and_drop(self):
+        self.index_group.variables['flight_id'][:] = []
+        self._tab = None
+'''
+
+
+class _Fn:
+    def __init__(self, node):
+        self.node = node
+        self.params = [a.arg for a in node.args.args]
+
+
+def _control_methods(drop: bool):
+    tree = ast.parse(_FRESH_CONTROL)
+    for n in ast.walk(tree):
+        for ch in ast.iter_child_nodes(n):
+            if not isinstance(ch, (ast.expr_context, ast.operator, ast.unaryop, ast.cmpop, ast.boolop)):
+                ch._parent = n
+    ms = {f.name: _Fn(f) for f in tree.body[0].body}
+    if drop:
+        ms['_reindex'] = ms.pop('_reindex_and_drop')
+    else:
+        ms.pop('_reindex_and_drop')
+    return ms
+
+
+def rule_fresh(ctx, m):
+    """R6: a copy of the index kept in an attribute is dropped or renewed wherever the index goes stale or is rewritten."""
+    prog = ctx.prog
+    cls = m.cls('TrajectoryStore')
+    res, n_stale, n_rewrite = freshness(prog, dict(cls.methods))
+    ctx.floor('C08-R6', n_stale + n_rewrite, 3, 'sites where the index goes stale or is rewritten')
+    for attr, ok, group, fills, sites, detail in res:
+        ffi, fst = fills[0]
+        if ok:
+            ctx.ob('C08-R6', ffi, f'copy of the index in self.{attr} renewed where the index is {group}', True,
+                   f'every site where the index is {group} also writes self.{attr}', line=fst.lineno)
+            continue
+        for sfi, sst in sites:
+            ctx.ob('C08-R6', sfi, f'{norm(sst)[:60]} leaves the copy of the index in self.{attr} in place', False,
+                   (f'{ffi.qualname} keeps a copy of the index variables in self.{attr} (line {fst.lineno}) and searches that copy, '
+                    f'but neither the place where the index goes stale (`{norm(sst)[:40]}` in {sfi.node.name}) nor the place where '
+                    f'the index variables are rewritten (_reindex) drops or renews it: once filled, the copy is used for the '
+                    f'lifetime of the object, so an identifier added after the first look-up is reported as missing' + detail),
+                   line=sst.lineno)
+    ctx.ob('C08-R6', (m.relpath, 'TrajectoryStore'), f'{len(res)} attribute(s) keep a copy of the index variables', True,
+           ', '.join(f'self.{r[0]}' for r in res) or 'look-ups read the index variables themselves', nontrivial=False)
+    bad, _, _ = freshness(None, _control_methods(drop=False))
+    good, _, _ = freshness(None, _control_methods(drop=True))
+    ctx.control('C08-R6', len(bad) == 1 and bad[0][0] == '_tab' and not bad[0][1] and 'never true' in bad[0][5]
+                and len(good) == 1 and good[0][1],
+                'embedded store that refills its index copy on `index_stale` after the lazy reindex is recognised as stale; '
+                'the same store dropping the copy in _reindex is accepted')
 
 
 def rule_offsets(ctx, m, rule='C08-R3'):
@@ -525,10 +1377,11 @@ def rule_linked(ctx, m, rule='C08-R5', entries=None):
 def run(ctx):
     m = ctx.prog.module(STORE)
     rule_stale(ctx, m)
+    rule_fresh(ctx, m)
     rule_sorted(ctx, m)
     rule_offsets(ctx, m)
     rule_all_or_none(ctx, m)
     rule_linked(ctx, m)
     ctx.note('wrong-trajectory reads in append sessions caused by a stale size table are reported under C07-R1')
-    ctx.assumptions += ['bisect_left on an ascending array returns the left-most slot of an equal key',
+    ctx.assumptions += ['bisect_left / np.searchsorted(side="left") on an ascending array return the left-most slot of an equal key',
                         'netCDF4 variable slices return arrays in stored order']
